@@ -85,8 +85,27 @@ func checkC17(sc *Scenario, res *RunResult, t *Truth) []Violation {
 			envCmd[name] = strings.TrimSpace(ts.Launches[0].OutputText)
 		}
 	}
+	// a live update: launches after it returned carry the updated per-process environment,
+	// launches before it was requested the original one; in between either
+	upCall, upRet := -1, -1
+	var upSpec *ProjectSpec
+	if len(sc.Updates) == 1 {
+		for _, c := range t.Calls {
+			if (c.Op == "update" || c.Op == "reload") && c.Err == "" && c.RetSeq >= 0 {
+				upCall, upRet, upSpec = c.CallSeq, c.RetSeq, sc.Updates[0]
+			}
+		}
+	}
 	for _, p := range spec.Procs {
-		own := kv(p.Env)
+		ownOld := kv(p.Env)
+		ownNew := ownOld
+		if upSpec != nil {
+			for _, q := range upSpec.Procs {
+				if q.Name == p.Name {
+					ownNew = kv(q.Env)
+				}
+			}
+		}
 		n := p.Replicas
 		if n < 1 {
 			n = 1
@@ -94,6 +113,26 @@ func checkC17(sc *Scenario, res *RunResult, t *Truth) []Violation {
 		for k, rn := range ReplicaNames(p.Name, n) {
 			for _, in := range t.ByRep[rn] {
 				where := fmt.Sprintf("%s (pid %d)", rn, in.Pid)
+				own := ownOld
+				undecided := map[string]bool{}
+				switch {
+				case upSpec != nil && in.ExecSeq > upRet:
+					own = ownNew
+				case upSpec != nil && in.ExecSeq > upCall:
+					own = map[string]string{} // either: judge what both agree on
+					for nm, v := range ownOld {
+						if w, ok := ownNew[nm]; ok && w == v {
+							own[nm] = v
+						} else {
+							undecided[nm] = true
+						}
+					}
+					for nm := range ownNew {
+						if !has(ownOld, nm) {
+							undecided[nm] = true
+						}
+					}
+				}
 				if v, _ := envOf(in, "PC_PROC_NAME"); v != p.Name {
 					add("wrong-injected-variable", "PC_PROC_NAME", fmt.Sprintf("%s was launched with PC_PROC_NAME=%q", where, v), in.ExecSeq)
 					return vs
@@ -116,6 +155,7 @@ func checkC17(sc *Scenario, res *RunResult, t *Truth) []Violation {
 				for _, nm := range sortedKeys(names) {
 					want, src, defined := "", "", false
 					switch {
+					case undecided[nm]:
 					case has(own, nm):
 						want, src, defined = own[nm], "the process's own environment", true
 					case has(global, nm):
@@ -208,6 +248,9 @@ func genC17(r *R, sc *Scenario, tier string) {
 			tok := fmt.Sprintf("e%d", i)
 			spec.EnvCmds[name] = tok
 			s := simos.Script{LifeMs: Pick(r, 5, 100), OutputText: Pick(r, "cmdout\n", "  spaced  \n", "v")}
+			if r.P(400) {
+				s.ErrText = "warning: deprecated option\n" // stderr is not part of the value
+			}
 			switch r.Intn(6) {
 			case 0:
 				s.Exit = 1
@@ -258,6 +301,15 @@ func genC17(r *R, sc *Scenario, tier string) {
 		up := cloneSpec(spec)
 		q := up.Procs[len(up.Procs)-1]
 		q.Env = append(q.Env, "UPD=1")
+		if r.P(400) {
+			// nothing changes but what follows the second '=' of a value
+			for _, p0 := range spec.Procs {
+				if p0.Name == q.Name {
+					p0.Env = append(p0.Env, "UPD=--level=1")
+				}
+			}
+			q.Env[len(q.Env)-1] = "UPD=--level=2"
+		}
 		sc.Updates = []*ProjectSpec{up}
 		first := ReplicaNames(spec.Procs[0].Name, spec.Procs[0].Replicas)[0]
 		sc.Clients = append(sc.Clients, Client{Name: "u", Ops: []Op{{AtMs: 4200, Op: Pick(r, "update", "reload"), N: 0}, {AtMs: 5500, Op: Pick(r, "restart", "start"), Arg: first}}})
